@@ -15,7 +15,7 @@ from common import Case
 import packlib
 from packlib import B, unB, MAGIC
 
-ALLOC_FACTOR = 4
+ALLOC_FACTOR = 8      # the result map itself: IndexMap keeps ~56 bytes per entry (16 bytes of input each) and grows by doubling
 ALLOC_SLACK = 4096
 
 
@@ -57,6 +57,14 @@ def total_cases(rng, tier, repo=None):
     # (0) the recorded findings and hand-made edge cases (also in corpus/C15)
     add(bytes(8), "pack-wrong-magic")                                        # F7
     add(struct.pack(">IHHIIII", MAGIC, 1, 0, 0, 0x18, 0x20, 0xFFFFFFFF) + b"a\0" + bytes(10), "pack-fields")   # F8
+    # (0b) well-formed images with more than 4096 entries: entry-table offsets (8 + 16*i) need more than 16 bits although the
+    # count is a u16 (seeded change C05-8 computed `i * 0x10` in u16 and panicked / wrapped from entry 4096 on)
+    import random as _random
+    for n in ((4097, 5000) if tier == "quick" else (4096, 4097, 8192, 20000, 65535)):
+        files = [(b"f%d" % i, bytes([i % 251]) if i % 7 == 0 else b"") for i in range(n)]
+        img = packlib.ref_write(files, _random.Random(n), names_after=False, permute=False, gaps=False, overlap=False,
+                                share_names=False, align=1, junk_fields=False)
+        cases.append(Case("packparsebig " + B(img), "pack-many-entries"))     # implementation + reference reader only (no model run)
     # (a) random bytes, length 0-256; half of them behind a valid magic so that the parser gets going
     nrand = 2000 if tier == "quick" else 60000
     for i in range(nrand):
@@ -163,6 +171,15 @@ def total_oracle(case, impl_out, profile):
         return "input without the pack magic accepted"
     if cat == "ok" and reser is None:
         return "accepted input was not re-serialized"
+    if case.line.startswith("packparsebig "):
+        # a conforming image (reference writer): the parser must return exactly the content the reference reader finds
+        files, _ = packlib.ref_read(raw)
+        got = [(t.split(",")[0], t.split(",")[2]) for t in ents]
+        want = [(n.hex(), b.hex()) for n, b in files]
+        if cat != "ok" or got != want:
+            k = next((i for i, (g, w) in enumerate(zip(got, want)) if g != w), min(len(got), len(want)))
+            return "well-formed pack with %d entries: parse %s, first difference at entry %d (got %s, want %s)" % (
+                len(files), cat, k, got[k:k + 1], want[k:k + 1])
     return None
 
 
@@ -214,6 +231,8 @@ STATS = {"decode_collisions": 0, "lossy_names": 0}
 
 
 def total_agree(case, impl_out, model_out, profile):
+    if case.line.startswith("packparsebig "):
+        return model_out == "unmodelled"
     parts = model_out.split(" || ")
     mo = parts[1] if (profile == "release" and len(parts) > 1) else parts[0]
     icat, ients, ireser, imx = split_out(impl_out)
@@ -258,6 +277,8 @@ def total_nontrivial(case, impl_out):
 
 
 def total_shrink(case):
+    if case.line.startswith("packparsebig "):
+        return
     raw = unB(case.line.split()[1])
     for k in (len(raw) // 2, len(raw) - 32, len(raw) - 1):
         if 0 <= k < len(raw):
